@@ -126,7 +126,66 @@ def case_strategy(weights, max_ops=40):
     # idgen: which id_generator_factory the world is built with (0/1: the default count(1); 2: count(3);
     # 3: single letters, colliding with the explicit str id 'a')
     return st.fixed_dictionaries({'classes': classes_strategy(), 'ops': ops_strategy(weights, max_ops),
-                                  'idgen': st.integers(0, 3)})
+                                  'idgen': st.integers(0, 3), 'amp': amp_strategy()})
+
+
+# ---- amplification: long and repetitive histories ---------------------------------------------------------
+# A small share of the cases is blown up: one operation of the history is repeated in place many times (its first
+# selector operand advancing, so that e.g. "delete" walks over the entities), or the whole history is repeated.
+# Sizes straddle the round numbers at which implementations change strategy (64, 128, 256, 1024).  The shrinker
+# lowers the size (and the rest of the case) as usual.
+AMP_SIZES = {120: ('each', 70), 121: ('each', 70), 122: ('each', 150), 123: ('op', 70), 124: ('op', 300),
+             125: ('op', 1100), 126: ('all', 70), 127: ('all', 420)}
+AMP_MAX_STEPS = {70: 500, 420: 1300}
+AMP_EACH_CAP = 1000
+
+
+def decode_amp(t):
+    a, b = t
+    if a not in AMP_SIZES:
+        return [0]
+    kind, size = AMP_SIZES[a]
+    return [kind, b, size]
+
+
+def amp_strategy():
+    return st.tuples(st.integers(0, 127), st.integers(0, 39)).map(decode_amp)
+
+
+def _repeat(o, times):
+    out = []
+    for t in range(times):
+        o2 = list(o)
+        if o2[0] != 'create' and len(o2) > 1 and isinstance(o2[1], int) and not isinstance(o2[1], bool):
+            o2[1] = o2[1] + t           # the selector advances: "delete" walks over the entities
+        out.append(o2)
+    return out
+
+
+def expand_ops(ops, amp, prefer=()):
+    """-> (expanded op list, amplified?)  ``prefer``: op names worth repeating (chosen first when present).
+
+    'op': one operation repeated in place; 'each': every operation that has operands repeated in place (create x k,
+    delete x k, process - many entities pending at one frame); 'all': the whole history repeated."""
+    if not amp or not amp[0] or not ops:
+        return list(ops), False
+    kind, b, size = amp
+    if kind == 'all':
+        r = max(1, min(size, AMP_MAX_STEPS.get(size, 1400) // len(ops)))
+        return [list(o) for _ in range(r) for o in ops], True
+    if kind == 'each':
+        rep = [i for i, o in enumerate(ops) if len(o) > 1]
+        k = max(1, min(size, AMP_EACH_CAP // max(1, len(rep))))
+        out = []
+        for o in ops:
+            out.extend(_repeat(o, k) if len(o) > 1 else [list(o)])
+        return out, True
+    idx = [i for i, o in enumerate(ops) if o[0] in prefer] or list(range(len(ops)))
+    i = idx[b % len(idx)]
+    out = []
+    for j, o in enumerate(ops):
+        out.extend(_repeat(o, size) if j == i else [list(o)])
+    return out, True
 
 
 def make_world(case):
@@ -135,7 +194,10 @@ def make_world(case):
     if kind == 2:
         return desper.World(id_generator_factory=lambda: itertools.count(3))
     if kind == 3:
-        return desper.World(id_generator_factory=lambda: iter('abcdefghijklmnopqrstuvwxyzABCDEFGHIJKLMNOPQRSTUVWXYZ'))
+        letters = 'abcdefghijklmnopqrstuvwxyzABCDEFGHIJKLMNOPQRSTUVWXYZ'
+        # single letters first (colliding with the explicit id 'a'), then longer words: never exhausted
+        return desper.World(id_generator_factory=lambda: (
+            ''.join(t) for n in itertools.count(1) for t in itertools.product(letters, repeat=n)))
     return desper.World()
 
 
@@ -170,6 +232,8 @@ class Run:
         self.noops = 0
         self.excluded = collections.Counter()
         self.steps = 0
+        self.touched = []
+        self.inside_calls = 0
         self.used_explicit_int = False
         self.failed_frames = 0
         self.step_ix = -1
@@ -193,7 +257,11 @@ class Run:
 
     def viol(self, clause, **details):
         details['step'] = self.step_ix
-        details['op'] = self.case['ops'][self.step_ix] if 0 <= self.step_ix < len(self.case['ops']) else None
+        ops = getattr(self, 'ops', self.case['ops'])
+        details['op'] = ops[self.step_ix] if 0 <= self.step_ix < len(ops) else None
+        if getattr(self, 'amplified', False):
+            details['amplified'] = self.case.get('amp')
+            details['expanded_steps'] = len(ops)
         raise PropertyViolation(clause, details, tags=dict(self.flags))
 
     def new_comp(self, cix):
@@ -212,9 +280,13 @@ class Run:
         if not self.known_ids:
             return None
         owners = [k for k in self.known_ids if self.owns(k)]
-        if owners and ix < 12:
-            return owners[ix % len(owners)]
-        return self.known_ids[ix % len(self.known_ids)]
+        if owners and (ix < 12 or getattr(self, 'amplified', False)):
+            t = owners[ix % len(owners)]
+        else:
+            t = self.known_ids[ix % len(self.known_ids)]
+        self.touched.append(t)
+        del self.touched[:-8]
+        return t
 
     def query_type(self, e, cix):
         """a class of the universe; operand values < 12 prefer types that match a component of ``e``."""
@@ -252,7 +324,7 @@ class Run:
         if 'lifecycle' in self.checks and raised_in_repo(exc):
             self.viol('operation_raised', exception=repr(exc))
         self.flags['op_raised'] += 1
-        self.flags['op_raised:%s:%s' % (self.case['ops'][self.step_ix][0], type(exc).__name__)] += 1
+        self.flags['op_raised:%s:%s' % (self.ops[self.step_ix][0], type(exc).__name__)] += 1
         raise Abort(repr(exc))
 
     # ---- owed callbacks -------------------------------------------------------------------------------
@@ -329,7 +401,7 @@ class Run:
                     eid = cand
                     break
                 self.excluded['explicit_id_in_use'] += 1
-        before = {k: dict(v) for k, v in self.attached.items() if v}
+        before = {k for k, v in self.attached.items() if v}
         self.busy.append(eid)
         if eid is None:
             got = self.call_op(self.world.create_entity, *comps)
@@ -1008,11 +1080,14 @@ class Run:
         except Exception as exc:
             self.viol('query_raised', query=getattr(fn, '__name__', repr(fn)), args=repr(a), exception=repr(exc))
 
-    def check_queries(self):
+    def check_queries(self, full=True):
         w = self.world
         sentinel = self
-        ids = list(self.known_ids) + NEVER_USED
-        for T in self.classes:
+        if full:
+            ids = list(self.known_ids) + NEVER_USED
+        else:
+            ids = list(self.known_ids[-2:]) + list(self.touched[-2:])
+        for T in (self.classes if full else ()):
             got = self.q(w.get, T)
             want = [(e, c) for e, row in self.attached.items() for c in row.values() if isinstance(c, T)]
             gk = collections.Counter(id(c) for (_e, c) in got)
@@ -1051,10 +1126,12 @@ class Run:
             want_ex = bool(row) and not self.is_pending(e)
             if bool(ex) != want_ex:
                 self.viol('entity_exists_differs', entity=repr(e), got=ex, expected=want_ex)
+        if not full:
+            return
         ents = self.q(lambda: w.entities)
         want_ents = [e for e, row in self.attached.items() if row and not self.is_pending(e)]
-        if len(ents) != len(want_ents) or any(not any(x == y for y in want_ents) for x in ents) or any(
-                not any(x == y for y in ents) for x in want_ents):
+        # (ids are compared the way the World keys them: by hash and ==, so that 1, 1.0 and True are one id)
+        if len(ents) != len(want_ents) or collections.Counter(ents) != collections.Counter(want_ents):
             self.viol('entities_differs', got=[repr(e) for e in ents], expected=[repr(e) for e in want_ents])
 
     # ---- C05 oracle -----------------------------------------------------------------------------------
@@ -1156,10 +1233,10 @@ class Run:
         """after process every deleted id is free again: creating it makes it exist."""
 
     # ---- driver ---------------------------------------------------------------------------------------
-    def after_step(self):
+    def after_step(self, full=True):
         if 'queries' in self.checks:
-            self.check_queries()
-        if 'lifecycle' in self.checks:
+            self.check_queries(full)
+        if 'lifecycle' in self.checks and full:
             self.check_handlers()
 
     def observe_inside(self, comp, kind, args):
@@ -1169,10 +1246,13 @@ class Run:
             return
         e = args[0]
         w = self.world
+        self.inside_calls += 1
         try:
             owns = bool(w.get_components(e))
             exists = w.entity_exists(e)
-            listed = any(x == e for x in w.entities)
+            # (listing every entity from inside every callback is quadratic: sampled in long histories)
+            listed = (any(x == e for x in w.entities) if (len(self.known_ids) < 100 or self.inside_calls % 16 == 0)
+                      else bool(exists))
         except PropertyViolation:
             raise
         except Exception as exc:
@@ -1189,14 +1269,31 @@ class Run:
         from vlib.classes import RecBase
         if 'queries' in self.checks:
             RecBase._observer = self.observe_inside
+        self.ops, self.amplified = expand_ops(self.case['ops'], self.case.get('amp'),
+                                              prefer=('create', 'add', 'delete', 'delete_now', 'remove'))
+        n = len(self.ops)
+        # long histories: the full comparison of every query for every id is made at ~12 points and at the end,
+        # the entities touched by the last operations are compared after every step
+        self.stride = (max(1, n // 12) if n <= 600 else n // 4) if n > 120 else 1
+        if self.amplified:
+            self.flags['amplified_history'] += 1
+            self.flags['amplified_%s' % self.case['amp'][0]] += 1
         try:
-            self.after_step()
-            for i, op in enumerate(self.case['ops']):
+            self.after_step(full=True)
+            for i, op in enumerate(self.ops):
                 self.step_ix = i
                 self.step(op)
-                self.after_step()
+                self.after_step(full=(i % self.stride == 0 or i == n - 1))
+            if self.amplified and not self.enabled and 'lifecycle' in self.checks:
+                # a long disabled period is released at the end (and judged)
+                self.step_ix = n
+                self._owed = []
+                self.op_toggle()
+                self.after_step(full=True)
         except Abort:
             self.flags['aborted'] += 1
+            if self.amplified:
+                self.flags['amplified_aborted'] += 1
         finally:
             RecBase._observer = None
         if has_diamond(self.classes):
